@@ -690,7 +690,7 @@ REVERSE_DELIVER = ["queued", "partial", "ran", "ran-then-queued", "unsent"]
 
 
 def scenario(calls, cutA, cutB, chunkA=7, chunkB=7, loss="lost", stall_release="after", after_calls=("ok", "oneway"),
-             reason=None, probe=None, bystanders=(), other=None, reverse=None):
+             reason=None, probe=None, bystanders=(), other=None, reverse=None, timers=None):
     """A = caller, B = callee.  Issue `calls`, deliver at most cutA bytes A->B and cutB bytes B->A in the given
     chunk sizes (alternating), then lose the connection in mode `loss`; afterwards the callee's late Deferreds fire,
     stalled arguments are released / failed and `after_calls` are issued on the dead reference.
@@ -699,8 +699,20 @@ def scenario(calls, cutA, cutB, chunkA=7, chunkB=7, loss="lost", stall_release="
     the connection ends (parsed, waiting in inboundDeliveryQueue, doNextCall has not run); "partial": all but the last 3
     bytes; "ran": delivered and the eventual queue turned (the methods ran, late ones hang, answers were written and
     delivered); "ran-then-queued": the calls are issued twice, first batch ran, second batch queued; "unsent": never delivered.
+    `timers` = dict(ka=keepaliveTimeout or None, dt=disconnectTimeout or None, pre=[seconds..], mid=[seconds..]): the caller's
+    Broker is created with these Tub options; the virtual clock advances by the `pre` amounts after the traffic and before the
+    ending begins, and by the `mid` amounts between the first and the second step of a two-step ending (after the garbage
+    that abandons the connection / after shutdown / after connectionTimedOut / between the two reports of lost-twice) -- the
+    transport takes that long to close.  foolscap's own timers (keepalive PINGs, the disconnect timer) fire in between.
     -> dict(trace, fires, twoway, waiting, totalA, totalB, errors)"""
     ka, dt = SELF_ENDED.get(loss) or (None, None)
+    if timers and loss not in ("silence", "silence-ping"):
+        ka, dt = timers.get("ka"), timers.get("dt")
+
+    def tick(which):
+        for a in (timers or {}).get(which, ()):
+            E.clock.advance(a)
+            E.turn()
     A, B, tA, tB, t, t2, rr, rr_typed = make_pair(keepalive=ka, disconnect=dt)
     stalls = []
     twoway = []
@@ -815,6 +827,7 @@ def scenario(calls, cutA, cutB, chunkA=7, chunkB=7, loss="lost", stall_release="
             reason = {"lost-A-only": "ConnectionLost", "shutdown-then-lost": "ConnectionLost",
                       "shutdown-other-then-data": "RuntimeError"}.get(loss, "ConnectionDone")
         why = reason_failure(reason)
+        tick("pre")
         for when, kind in bystanders:
             if when == "before-loss":
                 rec.enqueue(kind == "raise")
@@ -828,14 +841,17 @@ def scenario(calls, cutA, cutB, chunkA=7, chunkB=7, loss="lost", stall_release="
             A.connectionLost(why)
         elif loss == "lost-twice":
             A.connectionLost(why)
+            tick("mid")
             A.finish(done)
             B.connectionLost(done)
         elif loss == "shutdown-then-lost":
             A.shutdown(why)
+            tick("mid")
             A.connectionLost(done)
             B.connectionLost(done)
         elif loss == "timeout":
             A.connectionTimedOut()
+            tick("mid")
             A.connectionLost(done)
             B.connectionLost(done)
         elif loss in ("silence", "silence-ping"):
@@ -852,6 +868,7 @@ def scenario(calls, cutA, cutB, chunkA=7, chunkB=7, loss="lost", stall_release="
             A.dataReceived(b"\x00" * 370)
             if not tA.closed and sentB in (0, len(tB.out)):      # only at a token boundary is it certainly a violation
                 rec.errors.append("protocol violation did not make the broker close its transport")
+            tick("mid")
             A.connectionLost(why)
             B.connectionLost(done)
         elif loss == "shutdown-other-then-data":
@@ -861,6 +878,7 @@ def scenario(calls, cutA, cutB, chunkA=7, chunkB=7, loss="lost", stall_release="
             rest = bytes(tB.out[sentB:])
             if rest:
                 A.dataReceived(rest)
+            tick("mid")
             A.connectionLost(done)
             B.connectionLost(done)
         else:
